@@ -130,6 +130,25 @@ def run(ctx):
                 stmts.append(lexer.join(toks, gaps))
             stmts.append(rnd.choice(["# header\n", "-- header\n", "/* header */ "]) + s + rnd.choice([" # end", " -- end", " /* end */"]))
     stmts += [c["sql"] for c in impl.corpus() if len(c["sql"]) < 400]
+    # the same statements with the whitespace round operators and parentheses removed (and with a line break / comment right behind an operator):
+    # what a terminal sees next to a name then changes, and the dialects' identifier terminals are written differently
+    OPCH = set("-+*/%<>=|&~!^(),")
+    glued = []
+    for s in stmts[:ctx.n(400, 4000)]:
+        toks, gaps, tr = lexer.split_gaps(s)
+        if len(toks) < 3:
+            continue
+        g2, changed = list(gaps), False
+        for k in range(1, len(toks)):
+            a_, b_ = toks[k - 1][1], toks[k][1]
+            opa, opb = a_[-1] in OPCH, b_[0] in OPCH
+            if g2[k].strip() == "" and g2[k] and (opa != opb or (opa and opb and (a_ in "()," or b_ in "(),"))) and rnd.random() < 0.6:
+                g2[k] = rnd.choice(["", "", "", "\n", "\t"]) if opa and not opb and a_ not in "()," else ""
+                changed = True
+        if changed:
+            glued.append(lexer.join(toks, g2, tr))
+    stmts += glued
+    stmts += ["select a-(b) from t", "select a-\nb from t", "select a-'x' from t", "select a from t where a-(select 1)>0", "select (a)-b from t", "select a*-b from t", "select a-/* c */b from t"]
     disagreements, nneutral, prem_bad = [], 0, []
     for si, sql in enumerate(stmts):
         if not neutral(sql):
